@@ -12,6 +12,8 @@ func (e *syntaxQueryParamRoot) compute(
 	root interface{}, _ []interface{}) []interface{} {
 
 	values := getContainer()
+
+	verifHook(6, values)
 	defer func() {
 		putContainer(values)
 	}()
